@@ -166,7 +166,8 @@ def _reck_map(w, o):
     r = w.get("reck", o["r"])
     c = w.get("c", o["c"])
     w.extra["last_result"] = None
-    m = w.call(r.map, c, o["seed"])
+    from .ops import val  # noqa: PLC0415
+    m = w.call(r.map, c, val(w, o["seed"]))
     w.extra["last_result"] = m
     if "out" in o:
         w.put("c", o["out"], m, params=set(), log=[["opaque"]], opaque=True,
@@ -222,6 +223,10 @@ class Mapper(Client):
                 return None
             o = {"op": "reck_map", "r": self.pick(list(w.pool["reck"])),
                  "c": self.pick(cs), "seed": self.seed_value()}
+            if r.random() < 0.08:
+                # an integer seed that is not a builtin int
+                o["seed"] = {"np": r.choice(["int64", "int32"]),
+                             "v": o["seed"] % (2 ** 31 - 1)}
             if len(self.own_circuits()) < cfg["max_circuits"] and r.random() < 0.2:
                 o["out"] = w.new_id("c")
             self.last_map = dict(o)
@@ -640,7 +645,8 @@ class ReckMonitor(Monitor):
         else:
             w.probe("noisy_model_map")
         # same seed + same configuration + same circuit => same mapped circuit
-        mk = (op["seed"], obs_digest(co), key)
+        from .ops import plain  # noqa: PLC0415
+        mk = (plain(op["seed"]), obs_digest(co), key)
         fields = spec_fields(m)
         prev = self.memo.get(mk)
         if prev is not None:
